@@ -1,7 +1,7 @@
 """Property -> obligations registry.  Floors are instance counts confirmed by hand on the pinned tree."""
 import json, os
 from .core import FLAVOURS, DIRECTED, UNDIRECTED, SYNC, PLAIN
-from . import rules_kernel as rk, dispatch as dp, rules_guard as rg, rules_edge as re_, rules_bt as rb, rules_misc as rm
+from . import rules_kernel as rk, dispatch as dp, rules_guard as rg, rules_edge as re_, rules_bt as rb, rules_misc as rm, rules_c16 as r16
 
 ALLF = ('Bfs', 'Dfs', 'Pfs', 'Order')
 HERE = os.path.dirname(os.path.abspath(__file__))
@@ -145,5 +145,33 @@ PROPS['C10'] = dict(
     decides='emission position, assembly and discovery discipline of the ordering kernels',
     does_not_decide='that ORD1+DFS1 yield a DFS discovery / finishing order (textbook)',
     assumptions=STD,
+)
+
+PROPS['C17'] = dict(
+    rules=[_r('LK1', rg.g3, SYNC, strict=True), _r('LK2', rg.g2, SYNC, rule='LK2'), _r('LK3', rg.lk3, SYNC), _r('LK4', rg.lk4, SYNC), _r('IT2', rg.it2, SYNC), _r('IT1', rg.it1, SYNC)],
+    explanation='Only the lock-discipline clauses are decidable statically: no node lock is acquired while another node-lock guard is held, directly or through any callee (LK1: with '
+                'per-node locks and no lock order this is necessary against ABBA and re-entrant read-behind-writer deadlocks, and with LK2 sufficient for deadlock freedom among gdsl\'s '
+                'own locks); no user callback or iterator step runs under a lock (LK2); no panic-capable call under a write guard (LK3: poisoning); every public mutator is one critical '
+                'section, otherwise it is reported with the multiset of its sections (LK4: a necessary condition of serialisability). Iterators lock once per step (IT1/IT2).',
+    decides='hold-and-wait freedom, callback-under-lock freedom, poisoning sites, number and owners of critical sections per operation',
+    does_not_decide='the serialisation order of schedules (linearizability), starvation, std RwLock itself; LK4 reports non-atomic operations but cannot prove atomic ones serialisable',
+    assumptions=STD + ['payload trait impls do not take gdsl locks'],
+    level_text='Lock-discipline analysis (guard-liveness dataflow over MIR): decides the deadlock/poisoning/atomicity *necessary conditions* of the property, not linearizability; '
+               'non-atomic compound operations are recorded as known findings (D15).',
+)
+
+PROPS['C16'] = dict(
+    rules=[('W16', lambda ctx: r16.w16(ctx)), ('UNS', lambda ctx: r16.uns(ctx))],
+    level='proof',
+    explanation='Decided for all K, N, E by the trait solver on generic obligations: with K,N,E: Send+Sync the sync Node/Edge/Graph are Send and Sync (12 positive witnesses); with any '
+                'one of the six bounds removed the obligation is rejected with E0277 on the assert line (72 negative witnesses, each with a compiling twin); the plain types are never '
+                'Send/Sync (12); concrete Cell/Rc/MutexGuard/raw-pointer payloads in every position are rejected. UNS lists unsafe impls/blocks from HIR and requires Send+Sync on every '
+                'parameter of each unsafe impl Send|Sync.',
+    decides='the Send/Sync obligations for every instantiation of K, N, E (universally quantified type-checking), on the metadata of the current tree',
+    does_not_decide='soundness of std Arc/RwLock themselves; the "consequently no data race" clause follows from Rust\'s safety guarantee given no unsafe code (UNS)',
+    assumptions=['rustc trait solver is sound for auto traits', 'no unsafe code beyond the listed unsafe impls (checked by UNS)'],
+    technique='static analysis: compile-fail / compile-pass witnesses decided by rustc\'s trait solver against the current tree\'s metadata, plus HIR scan of unsafe items',
+    level_text='proof: each obligation is a generic (for all K,N,E) trait obligation discharged or refuted by the compiler; negative witnesses are paired with compiling twins',
+    trusted=['rustc trait solver / auto-trait rules'],
 )
 NOT_APPLICABLE = {}
